@@ -39,6 +39,8 @@ def check(ctx, rep, tier):
     _accessors(ctx, rep, eng)
     _span(ctx, rep, eng)
     report_undecided(rep, eng)
+    for (w_, c_, why_) in sorted(getattr(eng.interp, "cal_unknown", {}).values()):
+        rep.undecided("calendar", c_, w_, why_)
     rep.count("rules", len(ctx.rb.rules), 40)
     rep.count("emitted_shapes", len(emitted_shapes(eng)), 20)
     rep.assume("A2 dateutil model; A5 E3 over-approximates reachable values")
@@ -87,7 +89,12 @@ def _sites(ctx, rep, eng):
                     "" if ok else ("unbounded part-of-day string" if e["podtop"]
                                    else "part-of-day keys unknown to the table: {}".format(miss[:3])))
         if e["cal"]:
-            badc = sorted(r for c, r in e["cal"] if c not in ("REAL", "CHECKED", "NA"))
+            badc = sorted(r for c, r in e["cal"] if c not in ("REAL", "CHECKED", "NA", "UNKNOWN"))
+            unk = sorted(r for c, r in e["cal"] if c == "UNKNOWN")
+            if unk and not badc:
+                rep.undecided("calendar", site, where, "calendar validity depends on a path condition outside "
+                              "the evaluable fragment (reached from {})".format(", ".join(unk[:3])))
+                continue
             rep.add("calendar", site, where, not badc,
                     "" if not badc else "month/day(/year) combined from independent sources "
                     "without a validity check (reached from {})".format(", ".join(badc[:3])))
